@@ -24,7 +24,7 @@ CLAIMED = {
              "affine/effect dataflow on typed AST (E2) + translation validation of generated headers (E4) + guard/effect table (G-GUARD)"),
     "C02": E("other", "Decides the decoder-side codec clause (one READ of sizeof(T), result = those bytes reversed iff byte orders "
              "differ, no arithmetic on the value) for every instantiation under C++11/17/20 paths, get_value's check/read width "
-             "agreement, constexpr reachability under C++20, and per generated getter of the corpus the model's offset/width/order; set choice getters (shift rule, mask rows); value()/operator* of the wrappers return the stored representation.",
+             "agreement, constexpr reachability under C++20, and per generated getter of the corpus the model's offset/width/order; set choice getters (shift rule, mask rows); value()/operator* of the wrappers return the stored representation; group size and entry address arithmetic (rows + R-INT).",
              "DESIGN.md 3/C02", TB + "Value equality on concrete images and FP register effects are not decided.",
              "affine/effect dataflow (E2) against the SBE encoding table + E4"),
     "C03": E("other", "Every level-end, stride and entry address in the library is an affine form over *wire* blockLength/numInGroup "
@@ -59,7 +59,7 @@ CLAIMED = {
              "DESIGN.md 3/C10", TB + "Operation sequences follow operation-by-operation only.",
              "path-sensitive affine/effect dataflow with dominance + linear implication (R-CHK)"),
     "C11": E("proof", "Type checker as prover: generated negative witnesses for every mutating call form of every entity, conversion "
-             "witnesses, cv-qualifier witnesses for the array references (const / volatile / const volatile bytes), the positive witness TU (read-only use with const bytes and const cursors compiles) and the no-const-removing-cast rule over all instantiations.", "DESIGN.md 3/C11",
+             "witnesses, cv-qualifier witnesses for the array references (const / volatile / const volatile bytes), cursor setters with a mutable cursor on a const view, the positive witness TU (read-only use with const bytes and const cursors compiles) and the no-const-removing-cast rule over all instantiations.", "DESIGN.md 3/C11",
              "Trusted: clang/g++ type checkers, cast enumeration by the extractor, completeness of the XML-model enumeration (cross-checked by E4).",
              "compile-fail witnesses + AST cast rule"),
     "C12": E("other", "Affine rows for group bases / iterators / cursor ranges for all 16 dimension pairs (laws hold as algebra over "
